@@ -69,7 +69,9 @@ type fioOp struct {
 	kind    byte // A P S O W C Z
 	ref     pdf.Reference
 	obj     pdf.Object
-	same    int // P: index of an earlier P op whose Go value is written again, or -1
+	same    int // P/S/O: index of an earlier op of the same kind whose Go value (object, *Stream, dict) is written again, or -1
+	stm     *pdf.Stream // S: the stream value handed to Put
+	dictText string     // S/O: the dictionary as it was before the first Writer call saw it
 	dict    pdf.Dict
 	data    []byte
 	filters []string
@@ -98,6 +100,7 @@ var fioFilterByName = map[string]pdf.Filter{
 	"RL":  pdf.FilterRunLength{},
 	"LZW": pdf.FilterLZW{},
 	"Cmp": pdf.FilterCompress{},
+	"Cid": pdf.FilterCryptIdentity{},
 }
 
 func fioFilters(names []string) []pdf.Filter {
@@ -106,6 +109,13 @@ func fioFilters(names []string) []pdf.Filter {
 		fs = append(fs, fioFilterByName[n])
 	}
 	return fs
+}
+
+func (op *fioOp) dictWire() string {
+	if op.dictText != "" {
+		return op.dictText
+	}
+	return fioSnapshot(op.dict)
 }
 
 func (p *fioProg) String() string {
@@ -134,9 +144,17 @@ func (p *fioProg) String() string {
 				fmt.Fprintf(&sb, "P~%d~%d~%s", op.ref.Number(), op.ref.Generation(), wire(op.obj))
 			}
 		case 'S':
-			fmt.Fprintf(&sb, "S~%d~%d~%s~%s~%s~%d", op.ref.Number(), op.ref.Generation(), wire(op.dict), hexWire(op.data), fl, op.userLen)
+			if op.same >= 0 {
+				fmt.Fprintf(&sb, "S~%d~%d~@%d", op.ref.Number(), op.ref.Generation(), op.same)
+			} else {
+				fmt.Fprintf(&sb, "S~%d~%d~%s~%s~%s~%d", op.ref.Number(), op.ref.Generation(), op.dictWire(), hexWire(op.data), fl, op.userLen)
+			}
 		case 'O':
-			fmt.Fprintf(&sb, "O~%d~%d~%s~%s~%d", op.ref.Number(), op.ref.Generation(), wire(op.dict), fl, op.userLen)
+			dw := op.dictWire()
+			if op.same >= 0 {
+				dw = fmt.Sprintf("@%d", op.same)
+			}
+			fmt.Fprintf(&sb, "O~%d~%d~%s~%s~%d", op.ref.Number(), op.ref.Generation(), dw, fl, op.userLen)
 		case 'W':
 			sb.WriteString("W~" + hexWire(op.data))
 		case 'Z':
@@ -204,6 +222,10 @@ func fioParseProg(s string) (*fioProg, error) {
 			}
 		case 'S':
 			op.ref = mkref(f[1], f[2])
+			if strings.HasPrefix(f[3], "@") {
+				op.same = atoi(f[3][1:])
+				break
+			}
 			d, err := fioUnwire(f[3])
 			if err != nil {
 				return nil, err
@@ -214,11 +236,15 @@ func fioParseProg(s string) (*fioProg, error) {
 			op.userLen, _ = strconv.ParseInt(f[6], 10, 64)
 		case 'O':
 			op.ref = mkref(f[1], f[2])
-			d, err := fioUnwire(f[3])
-			if err != nil {
-				return nil, err
+			if strings.HasPrefix(f[3], "@") {
+				op.same = atoi(f[3][1:])
+			} else {
+				d, err := fioUnwire(f[3])
+				if err != nil {
+					return nil, err
+				}
+				op.dict, _ = d.(pdf.Dict)
 			}
-			op.dict, _ = d.(pdf.Dict)
 			op.filters = flt(f[4])
 			op.userLen, _ = strconv.ParseInt(f[5], 10, 64)
 		case 'W':
@@ -272,7 +298,30 @@ type fioResult struct {
 
 const fioUserPw, fioOwnerPw = "user-pw", "owner-pw"
 
-func fioSnapshot(o pdf.Object) string { return wire(o) }
+// fioSnapshot renders a caller-owned value; values the wire format does not
+// know (a *Placeholder planted into the caller's dictionary, say) still give
+// a text that differs from every regular snapshot.
+func fioSnapshot(o pdf.Object) (res string) {
+	defer func() {
+		if r := recover(); r != nil {
+			res = fmt.Sprintf("!unrepresentable(%v)", r)
+		}
+	}()
+	return wire(o)
+}
+
+// fioCloneDict makes a deep copy through the wire format.
+func fioCloneDict(d pdf.Dict) pdf.Dict {
+	o, err := fioUnwire(wire(d))
+	if err != nil {
+		return d
+	}
+	c, _ := o.(pdf.Dict)
+	if c == nil {
+		c = pdf.Dict{}
+	}
+	return c
+}
 
 // fioValid reports whether every operation of the program is one the Writer
 // has to accept (no duplicate numbers, references come from Alloc, ...).
@@ -332,6 +381,8 @@ func fioExec(p *fioProg, gen func(st *fioExecState) bool) *fioResult {
 	var streamRef pdf.Reference
 	var streamData []byte
 	var streamOp int
+	var streamDict, streamWant pdf.Dict
+	var streamSnap string
 
 	step := func(i int) (err error) {
 		defer func() {
@@ -362,18 +413,34 @@ func fioExec(p *fioProg, gen func(st *fioExecState) bool) *fioResult {
 				}
 			}
 		case 'S':
-			dict := op.dict
-			stm := pdf.NewStream(dict, append([]byte(nil), op.data...))
+			if op.same >= 0 && op.same < i && p.ops[op.same].kind == 'S' && p.ops[op.same].stm != nil {
+				// the same *Stream value is written a second time
+				op.stm = p.ops[op.same].stm
+				op.dict = p.ops[op.same].dict
+				op.data = p.ops[op.same].data
+			} else {
+				op.same = -1
+				op.dictText = fioSnapshot(op.dict)
+				op.stm = pdf.NewStream(op.dict, append([]byte(nil), op.data...))
+			}
+			dict := op.stm.Dict
+			want := fioCloneDict(dict)
 			before := fioSnapshot(dict)
-			err = w.Put(op.ref, stm)
+			err = w.Put(op.ref, op.stm)
 			if after := fioSnapshot(dict); after != before {
-				res.mutated = append(res.mutated, fmt.Sprintf("op %d Put(%v, stream): dictionary %s became %s", i, op.ref, before, after))
+				res.mutated = append(res.mutated, fmt.Sprintf("op %d Put(%v, stream of %d bytes): the stream's dictionary %s became %s", i, op.ref, len(op.data), before, after))
 			}
 			if err == nil {
-				res.written[op.ref] = &fioWritten{isStream: true, dict: dict, data: op.data, opIndex: i}
+				res.written[op.ref] = &fioWritten{isStream: true, dict: want, data: op.data, opIndex: i}
 				res.order = append(res.order, op.ref)
 			}
 		case 'O':
+			if op.same >= 0 && op.same < i && p.ops[op.same].kind == 'O' {
+				op.dict = p.ops[op.same].dict // the same map value
+			} else {
+				op.same = -1
+				op.dictText = fioSnapshot(op.dict)
+			}
 			dict := op.dict
 			if op.userLen >= 0 {
 				dict = pdf.Dict{}
@@ -383,6 +450,7 @@ func fioExec(p *fioProg, gen func(st *fioExecState) bool) *fioResult {
 				dict["Length"] = pdf.Integer(op.userLen)
 			}
 			before := fioSnapshot(dict)
+			streamWant = fioCloneDict(op.dict)
 			stream, err = w.OpenStream(op.ref, dict, fioFilters(op.filters)...)
 			if after := fioSnapshot(dict); after != before {
 				res.mutated = append(res.mutated, fmt.Sprintf("op %d OpenStream(%v): dictionary %s became %s", i, op.ref, before, after))
@@ -391,6 +459,8 @@ func fioExec(p *fioProg, gen func(st *fioExecState) bool) *fioResult {
 				streamRef = op.ref
 				streamData = nil
 				streamOp = i
+				streamDict = dict
+				streamSnap = before
 			}
 		case 'W':
 			if stream == nil {
@@ -402,14 +472,21 @@ func fioExec(p *fioProg, gen func(st *fioExecState) bool) *fioResult {
 				res.mutated = append(res.mutated, fmt.Sprintf("op %d Write: buffer changed", i))
 			}
 			streamData = append(streamData, op.data...)
+			if after := fioSnapshot(streamDict); after != streamSnap {
+				res.mutated = append(res.mutated, fmt.Sprintf("op %d Write on the stream opened at op %d: the dictionary given to OpenStream %s became %s", i, streamOp, streamSnap, after))
+				streamSnap = after
+			}
 		case 'C':
 			if stream == nil {
 				return errors.New("harness: close without open stream")
 			}
 			err = stream.Close()
+			if after := fioSnapshot(streamDict); after != streamSnap {
+				res.mutated = append(res.mutated, fmt.Sprintf("op %d Close of the stream opened at op %d (%d bytes): the dictionary given to OpenStream %s became %s", i, streamOp, len(streamData), streamSnap, after))
+			}
 			if err == nil {
 				o := &p.ops[streamOp]
-				res.written[streamRef] = &fioWritten{isStream: true, dict: o.dict, data: streamData, filters: o.filters, opIndex: streamOp}
+				res.written[streamRef] = &fioWritten{isStream: true, dict: streamWant, data: streamData, filters: o.filters, opIndex: streamOp}
 				res.order = append(res.order, streamRef)
 			}
 			stream = nil
@@ -560,6 +637,18 @@ func fioGenStreamDict(r *Rand) pdf.Dict {
 	return d
 }
 
+// fioGenCryptDict: a stream dictionary with one to three strings.
+func fioGenCryptDict(r *Rand) pdf.Dict {
+	d := pdf.Dict{"Str1": pdf.String(genBytes(r, 24))}
+	if r.Bool() {
+		d["Str2"] = pdf.Array{pdf.String(genBytes(r, 10)), pdf.Integer(3)}
+	}
+	if r.Bool() {
+		d["Sub"] = pdf.Dict{"Str3": pdf.String("plain text ( ) \\")}
+	}
+	return d
+}
+
 func fioGenFilters(r *Rand, v pdf.Version) []string {
 	if r.P(1, 2) {
 		return nil
@@ -612,6 +701,7 @@ func fioGenProg(r *Rand, thorough bool, broken int) *fioResult {
 	}
 	var free []pdf.Reference // allocated, not yet written (or scheduled)
 	var putIdx []int         // indices of P ops (for writing the same value twice)
+	var sIdx, oIdx []int     // indices of S and O ops (the same stream / dictionary value again)
 	writesLeft := 0
 	openFiltered := false
 	takeRef := func() (pdf.Reference, bool) {
@@ -695,7 +785,7 @@ func fioGenProg(r *Rand, thorough bool, broken int) *fioResult {
 				// sparse numbering: a number far beyond what Alloc has handed out
 				// (setXRef pushes nextRef past it); every number in between gets a
 				// free entry.  With xref streams this reaches finding F2.
-				ref = pdf.NewReference(uint32(Pick(r, []int{300, 300, 2000, 9000, 20000})+r.Intn(50)), 0)
+				ref = pdf.NewReference(uint32(Pick(r, []int{300, 300, 2000, 9000, 20000, 70000})+r.Intn(50)), 0)
 				for _, w := range p.ops {
 					if w.ref.Number() == ref.Number() {
 						ref = pdf.NewReference(ref.Number()+977, 0)
@@ -713,11 +803,44 @@ func fioGenProg(r *Rand, thorough bool, broken int) *fioResult {
 			return add(op)
 		case k < 13:
 			ref, _ := takeRef()
-			op := fioOp{kind: 'S', ref: ref, dict: fioGenStreamDict(r), data: fioGenBody(r), userLen: -1}
+			op := fioOp{kind: 'S', ref: ref, dict: fioGenStreamDict(r), data: fioGenBody(r), userLen: -1, same: -1}
+			if len(sIdx) > 0 && r.P(1, 3) {
+				// the same *Stream value is handed to Put again
+				op.same = Pick(r, sIdx)
+			} else if p.encrypt && r.P(1, 4) {
+				// an explicit /Crypt filter in the dictionary of a stream object:
+				// the data is stored as it is, the strings of the dictionary are
+				// still encrypted with the key of this object
+				op.dict = fioGenCryptDict(r)
+				op.dict["Filter"] = pdf.Name("Crypt")
+				add(fioOp{kind: 'A', same: -1})
+				if len(free) > 0 {
+					other, _ := takeRef()
+					add(fioOp{kind: 'P', ref: other, obj: pdf.Array{pdf.String(genBytes(r, 12)), genInt(r)}, same: -1})
+				}
+			}
+			sIdx = append(sIdx, len(p.ops))
 			return add(op)
 		case k < 17:
 			ref, _ := takeRef()
-			op := fioOp{kind: 'O', ref: ref, dict: fioGenStreamDict(r), filters: fioGenFilters(r, p.version), userLen: -1}
+			op := fioOp{kind: 'O', ref: ref, dict: fioGenStreamDict(r), filters: fioGenFilters(r, p.version), userLen: -1, same: -1}
+			if len(oIdx) > 0 && r.P(1, 3) {
+				// the same dictionary value is handed to OpenStream again
+				op.same = Pick(r, oIdx)
+				if r.Bool() {
+					op.filters = nil
+				}
+			} else if p.encrypt && p.version >= pdf.V1_5 && r.P(1, 3) {
+				// filter chain starting with the Identity crypt filter, directly
+				// after a different object
+				op.dict = fioGenCryptDict(r)
+				op.filters = Pick(r, [][]string{{"Cid"}, {"Cid", "Fl"}, {"Cid", "AHx"}})
+				if len(free) > 0 {
+					other, _ := takeRef()
+					add(fioOp{kind: 'P', ref: other, obj: pdf.Dict{"S": pdf.String(genBytes(r, 12))}, same: -1})
+				}
+			}
+			oIdx = append(oIdx, len(p.ops))
 			writesLeft = r.Intn(4)
 			openFiltered = len(op.filters) > 0 || p.encrypt
 			if !openFiltered && r.P(1, 4) {
@@ -797,10 +920,14 @@ func oracleFileRoundTrip(res *fioResult) (v []fioViolation) {
 	rd, err := fioReopen(res)
 	if err != nil {
 		key := "reopen-failed"
-		if strings.Contains(err.Error(), "invalid cross-reference table") && res.nextRef > 8192 &&
+		if strings.Contains(err.Error(), "invalid cross-reference table") &&
 			!res.prog.human && res.prog.version >= pdf.V1_5 {
-			// checkXRefStreamDict: Size exceeds 8192 + 32 * (raw length of the xref stream)
-			key = "xref-stream-entry-cap"
+			// exactly the D26 class: checkXRefStreamDict refuses Size entries when
+			// Size > 8192 + 32 * (raw length of the xref stream)
+			if _, xrefRaw, e2 := fioTrailer(res.file, &fioDisk{file: res.file}); e2 == nil && xrefRaw != nil &&
+				int64(res.nextRef) > 8192+32*int64(len(xrefRaw)) {
+				key = "xref-stream-entry-cap"
+			}
 		}
 		return append(v, fioViolation{key, fmt.Sprintf("NewReader on the written file (%d bytes, Size %d): %v", len(res.file), res.nextRef, err)})
 	}
@@ -875,7 +1002,13 @@ func oracleFileRoundTrip(res *fioResult) (v []fioViolation) {
 				gd[k] = val
 			}
 		}
-		if !objEqual(normObj(gd), normObj(wr.dict)) {
+		wd := pdf.Dict{}
+		for k, val := range wr.dict {
+			if k != "Filter" && k != "DecodeParms" {
+				wd[k] = val
+			}
+		}
+		if !objEqual(normObj(gd), normObj(wd)) {
 			v = append(v, fioViolation{"stream-dict-differs", fmt.Sprintf("Get(%v) (op %d): dictionary %s, written %s", ref, wr.opIndex, wireNorm(gd), wireNorm(wr.dict))})
 		}
 		dr, err := pdf.DecodeStream(rd, nil, stm)
@@ -1106,6 +1239,10 @@ func fioModelLine(res *fioResult) (string, error) {
 	disk := &fioDisk{file: res.file, xref: map[uint32]pdf.VerifFIOEntry{}, cache: map[uint32]pdf.Object{}}
 	for _, e := range res.xref {
 		disk.xref[e.Num] = e
+	}
+	if len(res.mutated) > 0 {
+		// the caller's values are no longer what the program says (reported by the oracle)
+		return "", errFioSkip
 	}
 	failed := res.failedAt != -1
 	if failed {
@@ -1375,11 +1512,21 @@ func fioStatProg(c *Ctx, res *fioResult) {
 			if op.userLen >= 0 {
 				c.Stat("op_O_userLength")
 			}
+			if op.same >= 0 {
+				c.Stat("op_O_same_dict_again")
+			}
 			for _, f := range op.filters {
 				c.Stat("filter_" + f)
 			}
 		case 'C':
 			inStream = false
+		case 'S':
+			if op.same >= 0 {
+				c.Stat("op_S_same_stream_again")
+			}
+			if op.dict["Filter"] == pdf.Name("Crypt") {
+				c.Stat("op_S_crypt_filter_in_dict")
+			}
 		case 'P':
 			if inStream {
 				c.Stat("op_P_deferred")
